@@ -84,10 +84,13 @@ fn add_correction(ts: Timestamp, correction: TimeInterval) -> Timestamp {
             .expect("Nanosecond correction should already be in a proper range for an u32."),
     );
 
+    // PTP seconds are 48 bits wide: wrap within that range, a correction pushing the
+    // timestamp out of it must not crash us
     let corrected_seconds = ts
         .seconds()
         .wrapping_add_signed(correction_seconds)
-        .wrapping_add(intermediate_nanos.div_euclid(1_000_000_000).into());
+        .wrapping_add(intermediate_nanos.div_euclid(1_000_000_000).into())
+        & 0x0000_FFFF_FFFF_FFFF;
     let corrected_nanos = intermediate_nanos.rem_euclid(1_000_000_000);
 
     Timestamp::new(corrected_seconds, corrected_nanos)
